@@ -29,7 +29,7 @@ CHECKS = {
     "C07": dict(
         cat="exploration", ref="4 C07",
         technique="property-based testing + exhaustive small scope against the disjunctive reference answer",
-        text="Frameworks biased to several components with lists of 1-3 arguments (free, attack endpoints, one per component, repetitions); all static solver types x encoders x credulous/skeptical x both entry points on fresh solvers; status must equal the disjunction over the brute-force extensions, certificates valid for the disjunction. Exhaustive: all graphs on <=3 arguments x all lists of length <=2 (quick) / <=3 (thorough). Every list query is also put to a SAT backend that returns chosen (non-default) models. Lists over composite frameworks of 20-200 arguments (incl. the gate construction) and over irregular graphs of 14-24 arguments are judged exactly.",
+        text="Frameworks biased to several components with lists of 1-3 arguments (free, attack endpoints, one per component, repetitions); all static solver types x encoders x credulous/skeptical x both entry points on fresh solvers; status must equal the disjunction over the brute-force extensions, certificates valid for the disjunction. Exhaustive: all graphs on <=3 arguments x all lists of length <=2 (quick) / <=3 (thorough). Every list query is also put to a SAT backend that returns chosen (non-default) models. Lists over composite frameworks of 20-200 arguments (incl. the gate construction) and over irregular graphs of 14-24 arguments are judged exactly. One list in nine has 4-6 members; lists are also picked by semantic role; four model choices per real list for the climbing procedures.",
         note="trusted: oracle.rs (brute force, backtracking reference, composition rules), CaDiCaL"),
     "C08": dict(
         cat="exploration", ref="4 C08",
